@@ -27,6 +27,8 @@ MANIFEST = dict(
           "commutes with rendering, the markup skeleton is untouched). DECLARATION: meta_rewritten_charset, meta_content_placeholder "
           "(string or list-valued http-equiv), meta_both_styles (+ setUpSubstitutionsOld / meta_both_styles_old_stale / setUp_old_agrees), new_tag_meta_rewritten / "
           "new_tag_content_placeholder / new_tag_attrs_win (a <meta> made with soup.new_tag(attrs=…, **kw)), "
+          "item_assigned_not_placeholder / item_assigned_declaration_stale (tag[key] = value leaves a plain string: the known "
+          "finding C08-meta-item-assignment as a theorem about the code mirror), "
           "meta_rewritten_content (general shape: any quiet prefix incl. earlier parameters, every key spelling the live pattern accepts, "
           "any value, any target name, continuation), meta_rewritten_content_last, meta_rewritten_content_verbatim, "
           "meta_python_specific_only_removes, content_rewritten_spellings + charset_re_tolerant (decided over the generated shape of the "
@@ -42,13 +44,14 @@ MANIFEST = dict(
           "attribute values, Tag.encode(errors=…), the reader on the writer's image — and the direct oracle on generated documents x "
           "encodings x entry points (bytes; decode; re-parse recovers values; declaration; original_encoding of a re-parse), with target "
           "names from every spelling codecs.lookup accepts call histories (repeated calls, copies, pickles, other documents parsed in between) on the same object, 10 builder "
-          "configurations x 5 ways of creating the declaring <meta> (parsed, new_tag attrs=/keywords/both, parsed elsewhere and moved), "
+          "configurations x 8 ways of creating the declaring <meta> (parsed, new_tag attrs=/keywords/both, parsed elsewhere and moved, "
+          "item assignment on a fresh tag, re-assignment over a parsed placeholder), "
           "and the rewritten declaration's position swept across the documented detection window (1024 / 2048 / 5 %)."),
     design="7/C08",
     note=("Codec laws are hypotheses, grounded by proofs for the modelled codecs and by testing each other real codec on the characters of "
           "the case: (codec, character) pairs where CPython's codec is not round-trip lawful (shift_jis/euc-jp U+00A5 U+203E, cp932 U+00A2.., "
           "euc-kr U+3164, iso-2022-kr SO/SI, hz on long strings …) are dropped and counted. Known findings re-observed from behaviour each "
-          "run: C1 controls via &#128;–&#159; and noncharacters in attribute values (neither repairable in bs4: HTML5 defines &#128;–&#159; "
+          "run (C08-meta-item-assignment: a declaration set by tag[key] = value is never a placeholder — Tag keeps no builder reference): C1 controls via &#128;–&#159; and noncharacters in attribute values (neither repairable in bs4: HTML5 defines &#128;–&#159; "
           "as windows-1252 whatever the numeric form, and attribute values are unescaped by stdlib html.unescape before bs4 sees them), and "
           "C08-pickle-rewrites-declaration (BeautifulSoup.__getstate__ renders with the default eventual_encoding; candidate repair in "
           "fixes/). Not modelled: errors=namereplace/surrogateescape/surrogatepass, formatters other than 'minimal' (oracle only), "
@@ -148,6 +151,22 @@ KF_C1 = "C08-c1-controls-via-charref"
 KF_NONCHAR = "C08-noncharacters-in-attributes"
 KF_PICKLE = "C08-pickle-rewrites-declaration"
 KF_HTML5 = "C08-html5-formatter-empty-charset"
+KF_ITEM = "C08-meta-item-assignment"
+ITEM_HOWS = ("item_assignment", "reassigned_same", "reassigned_other")
+
+
+def item_kf(recipe, history, which):
+    """classifier of the item-assignment finding, from the case itself: the declaring value `which` ("charset" / "content")
+    of the <meta> that ends up in the rendered tree was last written by `tag[key] = value` (a pickle round trip afterwards
+    re-parses the markup and installs placeholders again, so the finding no longer applies then)"""
+    meta = recipe["meta"]
+    how = meta.get("how", "parsed")
+    if how not in ITEM_HOWS or any(st[0] == "pickle" for st in (history or [])):
+        return None
+    if how == "item_assignment":
+        return KF_ITEM            # every attribute of that tag was assigned
+    assigned = "charset" if meta["style"] == "charset" else "content"
+    return KF_ITEM if which == assigned else None
 ASCII_SPACES = " \n\t\x0c\r"
 
 
@@ -461,7 +480,8 @@ def gen_items(r, enc, ctx, depth, counter):
 CONFIG_NAMES = ["default", "default", "default", "mva_none", "mva_empty", "mva_custom", "builder_obj", "builder_obj_default",
                 "no_line_numbers", "dup_replace", "subclass_tag", "string_containers_empty"]
 # how the declaring <meta> gets into the tree
-HOWS = ["parsed", "parsed", "parsed", "new_tag_attrs", "new_tag_kw", "new_tag_attrs_over_kw", "parsed_fragment"]
+HOWS = ["parsed", "parsed", "parsed", "new_tag_attrs", "new_tag_kw", "new_tag_attrs_over_kw", "parsed_fragment",
+        "item_assignment", "reassigned_same", "reassigned_other"]
 NOT_KEYWORDS = {"name", "namespace", "nsprefix", "attrs", "sourceline", "sourcepos", "string", "self"}
 
 
@@ -519,6 +539,20 @@ def make_meta(soup, markup, how, cfg):
     if how == "parsed_fragment":
         # parsed in a soup of its own (same configuration), then moved over
         return make_soup(markup, cfg).find("meta").extract()
+    if how == "item_assignment":
+        # m = soup.new_tag('meta'); m['charset'] = …  /  m['http-equiv'] = …; m['content'] = …
+        m = soup.new_tag("meta")
+        for k, v in d.items():
+            m[k] = v
+        return m
+    if how in ("reassigned_same", "reassigned_other"):
+        # a parsed declaring <meta> whose declaring value is assigned again: the same text, or another value and then the text
+        m = make_soup(markup, cfg).find("meta").extract()
+        key = "charset" if "charset" in d else "content"
+        if how == "reassigned_other":
+            m[key] = "zz-initial"
+        m[key] = d[key]
+        return m
     raise KeyError(how)
 
 
@@ -894,6 +928,37 @@ def stream_setup(ctx, batch):
             report(ctx, "set_up_substitutions installs the wrong placeholders", case=case, expected=want, observed=kinds, stream="setup")
         ctx.count("setup:" + "".join(sorted(set(kinds.values()))))
         ctx.case(("setup", markup) if "c" in kinds.values() or "m" in kinds.values() else None)
+        # tag[key] = value on the parsed tag: the model says the value stays plain (Tag.__setitem__); the property wants a declaration
+        # assigned this way to be a placeholder like any other — the item-assignment finding, classified from the call itself
+        if not multi and r.random() < 0.5:
+            akey = r.choice(["charset", "content", "http-equiv", "id"])
+            aval = r.choice(OLD_NAMES + ["text/html; charset=x", "Content-Type"])
+            before = " ".join(f"{tok(k)} p {tok(str(v))}" for k, v in tag.attrs.items())
+            nbefore = len(tag.attrs)
+            tag[akey] = aval
+            kinds3 = {k: ("c" if isinstance(v, el.CharsetMetaAttributeValue) else "m" if isinstance(v, el.ContentMetaAttributeValue)
+                          else "p") for k, v in tag.attrs.items()}
+            case3 = {"op": "setitem", "markup": markup, "config": pcfg, "key": akey, "value": aval}
+            batch.ask("setup-setitem", f"setitem {tok(akey)} {tok(aval)} {tok(name)} {nbefore} {before}".strip(),
+                      " ".join(f"{tok(k)}:{kinds3[k]}" for k in tag.attrs) or "-", case3)
+            final = dict(attrs)
+            final[akey] = aval
+            want3 = {k: "p" for k in tag.attrs}
+            if name == "meta":
+                if "charset" in final:
+                    want3["charset"] = "c"
+                if "content" in final and final.get("http-equiv", "").lower() == "content-type":
+                    want3["content"] = "m"
+            if kinds3 != want3:
+                wrong = {k for k in want3 if kinds3.get(k) != want3[k]}
+                # attributed to the finding only when every wrong attribute is one this very call assigned (or whose role this
+                # call created: content becomes a declaration when http-equiv is assigned)
+                kf3 = KF_ITEM if wrong <= {akey} | ({"content"} if akey == "http-equiv" else set()) else None
+                report(ctx, "after tag[key] = value the <meta> does not carry the placeholders its attributes call for", case=case3,
+                       expected=want3, observed=kinds3, stream="setup-setitem", kf=kf3)
+            ctx.count("setup-setitem:" + akey)
+            ctx.case(("setitem", markup, akey, aval))
+            continue
         # the same attributes through soup.new_tag(name, attrs=…, **kw) under a random builder configuration: keywords for some
         # identifier-named keys, the dictionary for the rest, overlaps resolved in favour of the dictionary, a None now and then
         if multi:
@@ -1080,13 +1145,13 @@ def check_doc(ctx, batch, recipe, enc, entry, stream, history=None, formatter="m
             got = declared_in(m2, style) if m2 is not None else None
             if got != enc:
                 viol("the <meta> declaration in the output does not name the target encoding (as given)", expected=enc, observed=got,
-                     kf=kf_h)
+                     kf=kf_h or item_kf(recipe, history, style))
         if both and plain and m2 is not None and declared_in(m2, "content") != enc:
             viol("a <meta> carrying both declaration styles: the one in `content` still names the old encoding",
-                 expected=enc, observed=declared_in(m2, "content"))
+                 expected=enc, observed=declared_in(m2, "content"), kf=item_kf(recipe, history, "content"))
         if style == "content" and m2 is not None and m2.get("content") != content_expected(info["parts"], enc, False):
             viol("the content attribute is not the original with only the charset value replaced",
-                 expected=content_expected(info["parts"], enc, False), observed=m2.get("content"))
+                 expected=content_expected(info["parts"], enc, False), observed=m2.get("content"), kf=item_kf(recipe, history, "content"))
         # (d) a re-parse without help detects the target (ASCII-compatible targets; BOM-writing UTF-16/32)
         if (f.ascii_compat and plain) or f.norm in ("utf-16", "utf-32"):
             auto = BS(out, "html.parser")
@@ -1097,8 +1162,10 @@ def check_doc(ctx, batch, recipe, enc, entry, stream, history=None, formatter="m
                 oen = None
             want = expected_bom_codec(out, enc)
             if oen != want:
+                # re-detection depends on the declaration: attributed to the item-assignment finding only when the declaration the
+                # detector reads (the last one of the tag) is an item-assigned one
                 viol("re-parsing the output auto-detects a different encoding (compared through codecs.lookup)", expected=want,
-                     observed=oe, kf=kf_h)
+                     observed=oe, kf=kf_h or item_kf(recipe, history, "content" if (both or style == "content") else "charset"))
             ctx.count("doc:redetect:" + ("bom" if f.norm in ("utf-16", "utf-32") else "declared"))
     elif style == "none" and f.norm in ("utf-16", "utf-32") and entry != "encode_contents_body":
         oe = BS(out, "html.parser").original_encoding
@@ -1197,7 +1264,8 @@ def check_doc_str(ctx, batch, recipe, e_enc, stream, history=None):
             what = ("decode() without a target encoding changed the declaration" if e_enc is None else
                     "decode(eventual_encoding=e) did not rewrite the declaration (empty / removed for a Python-specific e)")
             found.append(what)
-            report(ctx, what, case=case, expected=want, observed=got, stream=stream, kf=kf_p)
+            report(ctx, what, case=case, expected=want, observed=got, stream=stream,
+                   kf=kf_p or (item_kf(recipe, history, style) if e_enc is not None else None))
     if style == "charset" and info.get("both") and m2 is not None:
         got = m2.get("content")
         want = ("text/html; charset=" + info["orig"] if e_enc is None else
@@ -1205,7 +1273,8 @@ def check_doc_str(ctx, batch, recipe, e_enc, stream, history=None):
         if got != want:
             what = "a <meta> carrying both declaration styles: decode() did not treat the one in `content` like the charset attribute"
             found.append(what)
-            report(ctx, what, case=case, expected=want, observed=got, stream=stream, kf=kf_p)
+            report(ctx, what, case=case, expected=want, observed=got, stream=stream,
+                   kf=kf_p or (item_kf(recipe, history, "content") if e_enc is not None else None))
     ctx.count("doc-str:" + ("none" if e_enc is None else "python-specific" if e_enc in PROP_PYTHON_SPECIFIC else "named") + ":" + style)
     ctx.case(("doc-str", json.dumps(recipe, sort_keys=True), e_enc) if style != "none" else None)
     if batch is not None:
@@ -1223,7 +1292,7 @@ def check_doc_str(ctx, batch, recipe, e_enc, stream, history=None):
         if got != want:
             found.append("str(soup) (eventual_encoding defaults to utf-8) does not name utf-8 in the declaration")
             report(ctx, "str(soup) (eventual_encoding defaults to utf-8) does not name utf-8 in the declaration", case=case,
-                   expected=want, observed=got, stream=stream)
+                   expected=want, observed=got, stream=stream, kf=item_kf(recipe, history, style))
     return found
 
 
@@ -1703,6 +1772,14 @@ def replay(path):
         kinds2 = {k: ("c" if type(x).__name__ == "CharsetMetaAttributeValue" else "m" if type(x).__name__ == "ContentMetaAttributeValue"
                       else "n" if x is None else "l" if isinstance(x, list) else "p") for k, x in t.attrs.items()}
         return 0 if kinds2 == v.get("expected") else 1
+    if op == "setitem":
+        soup = make_soup(c["markup"], c.get("config", "default"))
+        t = soup.find(True)
+        t[c["key"]] = c["value"]
+        print(f"parsed {c['markup']} [builder configuration {c.get('config')}], then tag[{c['key']!r}] = {c['value']!r}")
+        print("implementation:  ", {k: type(x).__name__ for k, x in t.attrs.items()})
+        print("property demands:", v.get("expected"))
+        return 1
     if op == "setup":
         soup = (E()["BeautifulSoup"](c["markup"], "html.parser", multi_valued_attributes={"*": ["http-equiv"]}) if c.get("multi_valued_http_equiv")
                 else make_soup(c["markup"], c.get("config", "default")))
